@@ -206,6 +206,12 @@ impl Builder {
         module
     }
 
+    /// Verification hook: the next id this builder would allocate.
+    #[cfg(feature = "verif-hooks")]
+    pub fn verif_next_id(&self) -> u32 {
+        self.next_id
+    }
+
     /// Returns the `Module` under construction as a reference. Note that header.bound will be inaccurate.
     pub fn module_ref(&self) -> &dr::Module {
         &self.module
